@@ -40,7 +40,8 @@ AccItems == <<
   <<"CoseKeySet", "", Arr(<<KeyFull, Map(<< <<Nat2I(1), Nat2I(4)>>, <<Neg2I(1), B1>> >>)>>)>>, <<"CoseKeySet", "", EmptyArr>>,
   <<"ClaimsSet", "", ClaimsFull>>, <<"ClaimsSet", "", EmptyMap>>,
   <<"PartyInfo", "", PartyA>>, <<"SuppPubInfo", "", SuppA>>, <<"SuppPubInfo", "", Arr(<<U64max, B0>>)>>, <<"CoseKdfContext", "", KdfA>>,
-  <<"Label", "", N63>>, <<"Label", "", Tx(<<195,169>>)>>,
+  <<"Label", "", N63>>, <<"Label", "", Tx(<<195,169>>)>>, <<"Label", "", Nat2I(23)>>, <<"Label", "", Nat2I(24)>>, <<"Label", "", Neg2I(24)>>,
+  <<"Label", "", Neg2I(25)>>, <<"Label", "", Z2I(256)>>,
   <<"RegisteredLabelWithPrivate", "Algorithm", Neg2I(65537)>>, <<"RegisteredLabel", "CoapContentFormat", Z2I(11544)>>,
   <<"Value", "", Arr(<<U64max, N64, F15, Tag(<<217,247>>, HdrFull), Flt(<<127,248,0,0,0,0,0,0>>)>>)>> >>
 NAcc == Len(AccItems)
